@@ -36,7 +36,7 @@ fn gen(a: &Args) {
     let mut r = Rng::new(a.seed);
     let mut o = Out::new();
     let thorough = a.tier == "thorough";
-    let n = if thorough { 4000 } else { 200 };
+    let n = if thorough { 4000 } else { 250 };
     for ci in 0..n {
         // a 64-hash universe; a few cases use hashes at the top of the u64 range
         let base: u64 = if ci % 7 == 3 { u64::MAX - 63 } else if ci % 7 == 5 { (1 << 63) - 32 } else { r.below(1000) };
